@@ -232,9 +232,17 @@ pub fn text_ascii() -> BoxedStrategy<Vec<u8>> {
         3 => "[ -~]{1,8}".prop_map(String::into_bytes),
         2 => "[0-9;:m\\[\\]?]{1,6}".prop_map(String::into_bytes),
         1 => "[a-z]{1,3}".prop_map(String::into_bytes),
+        1 => select(SHAPED_TEXTS.to_vec()).prop_map(|s| s.as_bytes().to_vec()),
     ]
     .boxed()
 }
+
+/// texts of the shapes found in command-line help, manual pages and markup: what a text looks
+/// like must never influence how it is treated
+pub const SHAPED_TEXTS: &[&str] = &[
+    "<FILE>", "<a>", "<A|B>", "<>", "[OPTIONS]", "--help", "-h, --help", "FILE...", "{x}", "$HOME", "a=b", "100%", "#1", "~/x", "`cmd`", "(s)", "*bold*", "_it_", "<b>x</b>", "&amp;", "&#65;",
+    "&lt;", "NAME", "foo(1)", "\"q\"", "'q'", "1.", "- item", "=====", "http://x/y?z=1&w=2", "C:\\dir", "@x", "^", "|", "]]>", "<!--", "<?x", "%s", "{}", "{0}", "\\n", "\\x1b[1m", "^[[1m", "ESC[1m",
+];
 
 const UTF8_POOL: &[&str] = &[
     "é", "ß", "€", "—", "漢", "字", "😀", "🦀", "\u{0301}", "\u{200d}", "\u{200b}", "\u{feff}",
